@@ -10,7 +10,7 @@ import sys
 from abc import ABCMeta, abstractmethod
 from contextlib import contextmanager
 from types import CodeType, FrameType, FunctionType, MethodType
-from typing import Any, Callable, Dict, Iterator, Optional, Set, Union, cast
+from typing import Any, Callable, Dict, Iterator, Optional, Set, Tuple, Union, cast
 
 import opcode
 
@@ -232,15 +232,18 @@ class CallTracer:
         # generator/coroutine frames that were not sampled and have not finished yet
         self.unsampled: Set[FrameType] = set()
         self.sample_rate = sample_rate
-        self.cache: Dict[CodeType, Optional[Callable[..., Any]]] = {}
+        self.cache: Dict[Tuple[str, CodeType], Optional[Callable[..., Any]]] = {}
         self.should_trace = code_filter
         self.max_typed_dict_size = max_typed_dict_size
 
     def _get_func(self, frame: FrameType) -> Optional[Callable[..., Any]]:
         code = frame.f_code
-        if code not in self.cache:
-            self.cache[code] = get_func(frame)
-        return self.cache[code]
+        # Code objects compare by value and ignore co_filename: the same source
+        # in two files gives equal code objects for two different functions.
+        key = (code.co_filename, code)
+        if key not in self.cache:
+            self.cache[key] = get_func(frame)
+        return self.cache[key]
 
     def handle_call(self, frame: FrameType) -> None:
         # I can't figure out a way to access the value sent to a generator via
